@@ -140,7 +140,7 @@ def main(argv=None):
             continue
         seen.add(v.signature)
         h = hashlib.sha1(json.dumps(v.detail, sort_keys=True, default=str).encode()).hexdigest()[:12]
-        d = REPLAYS / pid
+        d = (Path("/var/tmp/seed_replays") if os.environ.get("VERIF_EVID_SUFFIX") else REPLAYS) / pid
         d.mkdir(parents=True, exist_ok=True)
         path = d / f"{h}.json"
         path.write_text(json.dumps({"property": pid, "signature": v.signature, "detail": v.detail},
